@@ -132,9 +132,10 @@ def conflictAt (c t : Graph) (i : String) : Bool :=
 /-- node ids present in both, in CBM order -/
 def common (c : Graph) (a : Graph) : List String := c.ids.filter (fun i => a.ids.contains i)
 
-/-- `merge_adm`; `order` is the iteration order of the `common_node_ids` set. Returns the error (if any) and the
-CBM as it is afterwards. -/
-def mergeOrd (c : Graph) (a : Adm) (order : List String) : Option Err × Graph :=
+/-- `merge_adm` up to (and including) the final GraphID rewrite on a store where that rewrite cannot fail (Neo4j: a
+`MATCH ... SET` that matches nothing); `order` is the iteration order of the `common_node_ids` set.  Returns the error
+(if any) and the CBM as it is afterwards. -/
+def mergeOrdN (c : Graph) (a : Adm) (order : List String) : Option Err × Graph :=
   if a.g.nodes.isEmpty then (some .assertion, c) else          -- assert adm.graph_exists()
   match stampAll a.id a.g.nodes with
   | .error e => (some e, c)                                      -- raised on the temporary clone
@@ -143,11 +144,18 @@ def mergeOrd (c : Graph) (a : Adm) (order : List String) : Option Err × Graph :
     if c.nodes.isEmpty then (none, t) else                       -- "if CBM is empty, just force ADM into it"
     match order.findIdx? (conflictAt c t) with
     | some k => (some .query, mergeCore c t a.id (order.take k) false)
-    | none =>
-      let g := mergeCore c t a.id order true
-      -- every node was common: the temporary graph is gone and update_nodes_property raises on it
-      if tn.all (fun n => c.ids.contains n.id) then (some .query, g) else (none, g)
+    | none => (none, mergeCore c t a.id order true)
 
+/-- every node of the model is already in the (non-empty) CBM: after the common-node loop the temporary graph is gone -/
+def vanishes (c : Graph) (a : Adm) : Bool := !c.nodes.isEmpty && a.g.nodes.all (fun n => c.ids.contains n.id)
+
+/-- `merge_adm` as it runs on the shared NetworkX store: when the temporary graph has vanished the final
+`update_nodes_property` raises on it (the merged state is the same). -/
+def mergeOrd (c : Graph) (a : Adm) (order : List String) : Option Err × Graph :=
+  let r := mergeOrdN c a order
+  if r.1.isNone && vanishes c a then (some .query, r.2) else r
+
+def mergeN (c : Graph) (a : Adm) : Option Err × Graph := mergeOrdN c a (common c a.g)
 def merge (c : Graph) (a : Adm) : Option Err × Graph := mergeOrd c a (common c a.g)
 
 /-! ## unmerge_adm -/
